@@ -771,7 +771,15 @@ def callback_bodies(prog, f, expr, depth=0):
     g = f
     while g is not None:
       if expr.id in getattr(g, 'nested', {}):
-        return [(g.nested[expr.id].node, [])]
+        nd = g.nested[expr.id].node
+        out = [(nd, [])]
+        # a nested function that only forwards (`def cb(evt): target(); return None`) also stands for its target
+        body = [s_ for s_ in nd.body if not (isinstance(s_, ast.Expr) and isinstance(s_.value, ast.Constant))
+                and not (isinstance(s_, ast.Return) and (s_.value is None or (isinstance(s_.value, ast.Constant) and s_.value.value is None)))]
+        if len(body) == 1 and isinstance(body[0], (ast.Expr, ast.Return)) and isinstance(body[0].value, ast.Call):
+          for n2, b2 in callback_bodies(prog, g.nested[expr.id], body[0].value.func, depth + 1):
+            out.append((n2, list(body[0].value.args) + b2))
+        return out
       g = getattr(g, 'parent', None)
     mod = getattr(f, 'module', None)
     if mod is not None and expr.id in getattr(mod, 'functions', {}):
